@@ -258,6 +258,7 @@ theorem sum_finite (num : Num α) (fin : α → Prop) (hc : FiniteClosed num fin
 /-- the entries of a map: every `(re, im)` of every coil -/
 def AllFinite (fin : α → Prop) (S : SMap α) : Prop := ∀ coil ∈ S, ∀ c ∈ coil, fin c.1 ∧ fin c.2
 
+omit [DecidableEq α] in
 theorem normAt_finite (num : Num α) (fin : α → Prop) (hc : FiniteClosed num fin) (S : SMap α)
     (hS : AllFinite fin S) (p : Nat) : fin (normAt num S p) := by
   unfold normAt sumSqAt
@@ -300,6 +301,58 @@ end finite
 /-- the hypotheses are satisfiable: over ℝ every value is finite -/
 example : FiniteClosed realNum (fun _ : ℝ => True) :=
   ⟨trivial, fun _ _ _ _ => trivial, fun _ _ _ _ => trivial, fun _ _ => trivial, fun _ _ _ _ _ => trivial⟩
+
+/-! ## layout: the `[coil][pixel]` reshape and the reduction / unsqueeze axes -/
+
+/-- the entry the driver reads for `(batch b, coil c, pixel p, component k)` is the row-major one -/
+theorem flatEntry_eq (B C P : Nat) (data : List Int) (b c p k : Nat) :
+    flatEntry B C P data b c p k = data.getD (k + 2 * (p + P * (c + C * b))) 0 := by
+  simp [flatEntry, Mask.ravelR]
+
+/-- `toSMap` puts entry `(b, c, p, ·)` of the flat tensor at `[c][p]` -/
+theorem toSMap_entry (B C P : Nat) (data : List Int) (b c p : Nat) (hc : c < C) (hp : p < P) :
+    ((toSMap B C P data b)[c]?.bind (·[p]?)) =
+      some ((flatEntry B C P data b c p 0 : Rat), (flatEntry B C P data b c p 1 : Rat)) := by
+  simp [toSMap, List.getElem?_map, List.getElem?_range hc, List.getElem?_range hp]
+
+theorem pySumShape_last (s : List Nat) (x : Nat) : pySumShape (s ++ [x]) (-1) = s := by
+  have : ((if (-1 : Int) < 0 then -1 + ((s ++ [x]).length : Int) else -1)).toNat = s.length := by
+    simp
+  simp only [pySumShape, this]
+  simp
+
+theorem pyUnsqueeze_last (s : List Nat) : pyUnsqueeze s (-1) = s ++ [1] := by
+  have : ((if (-1 : Int) < 0 then -1 + (s.length : Int) + 1 else -1)).toNat = s.length := by
+    simp
+  simp only [pyUnsqueeze, this]
+  simp
+
+theorem pySumShape_one (n c : Nat) (s : List Nat) : pySumShape (n :: c :: s) 1 = n :: s := by
+  simp [pySumShape]
+
+theorem pyUnsqueeze_one (n : Nat) (s : List Nat) : pyUnsqueeze (n :: s) 1 = n :: 1 :: s := by
+  simp [pyUnsqueeze]
+
+/-- for every accepted plan the divisor built from a map of shape `(n, c, *spatial, 2)` has shape
+`(n, 1, *spatial, 1)`: it is constant along exactly the coil and the complex axis, which is what
+`Sens.divMap` (one divisor per pixel, shared by all coils and both components) encodes. -/
+theorem divisorShape_of_wf (plan : Bool × Int × List Int × List Int) (h : planWf plan = true)
+    (n c : Nat) (sp : List Nat) : divisorShape plan ((n :: c :: sp) ++ [2]) = (n :: 1 :: sp) ++ [1] := by
+  obtain ⟨sq, e, axes, uns⟩ := plan
+  simp only [planWf, Bool.and_eq_true, Bool.or_eq_true, beq_iff_eq] at h
+  obtain ⟨⟨⟨_, _⟩, hax⟩, hun⟩ := h
+  subst hax
+  rcases hun with hun | hun <;> subst hun
+  · simp only [divisorShape, List.foldl_cons, List.foldl_nil]
+    rw [pySumShape_last, pySumShape_one, pyUnsqueeze_one, pyUnsqueeze_last]
+  · simp only [divisorShape, List.foldl_cons, List.foldl_nil]
+    rw [pySumShape_last, pySumShape_one, pyUnsqueeze_last]
+    exact pyUnsqueeze_one n (sp ++ [1])
+
+example : planWf normPlan = true := by decide
+example : planWf (true, 2, [-1, 1], [-1, 1]) = true := by decide
+example : planWf (true, 2, [-1, 0], [1, -1]) = false := by decide
+example : planWf (false, 2, [-1, 1], [1, -1]) = false := by decide
 
 /-- without the guard the value of `0 / 0` reaches the map (NaN in float32) -/
 theorem unguarded_violates :
